@@ -39,6 +39,8 @@ class InterpBSplines(InterpAlgorithm):
     ----------
     _jac : ndarray
         Matrix of b-spline coefficients.
+    _jac_x : ndarray or None
+        The interpolation points that _jac was computed for.
     x_cp_start : None or float
         Optional, for bsplines only. Location of first control point if not on the first
         interpolation point.
@@ -57,6 +59,7 @@ class InterpBSplines(InterpAlgorithm):
         self.k = self.options['order'] + 1
         self._name = 'bsplines'
         self._jac = None
+        self._jac_x = None
 
         # It doesn't make sense to define a grid for bsplines.
         self.grid = None
@@ -105,7 +108,9 @@ class InterpBSplines(InterpAlgorithm):
         ndarray
             Derivative of interpolated values with respect to grid.
         """
-        if self._jac is None:
+        if self._jac is None or not np.array_equal(x, self._jac_x):
+            # keep a copy: x may be changed by the caller between evaluations
+            self._jac_x = np.array(x)
 
             # Map onto [0, 1]
 
